@@ -4,6 +4,7 @@
 //   wf(r)  ==  denom > 0  &&  coprime(numer, denom)      (Bezout form)
 //   value  ==  numer / denom, expressed by cross-multiplication
 use vstd::prelude::*;
+use core::cmp;
 verus! {
 //@include prelude/rt.rs
 //@include prelude/z.rs
@@ -374,7 +375,77 @@ impl Ratio {
     pub fn is_unit(&self) -> (r: bool)
         ensures r == (self.numer.v() != 0),
     //@body impl/Ring@Ratio/is_unit
+
 }
+
+/// nested helper of Ord::cmp
+pub fn div_mod_floor(a: &Z, b: &Z) -> (r: (Z, Z))
+        requires b.v() > 0,
+        ensures a.v() == r.0.v() * b.v() + r.1.v(), 0 <= r.1.v() < b.v(),
+    //@body impl/Ord@Ratio/cmp/div_mod_floor ring=1 subst=T:Z
+    //@+ sig
+    //@| fn div_mod_floor<T>(a: &T, b: &T) -> (T, T) where T: Integer, for<'x> &'x T: IntOps<T>
+    //@+ pre
+    //@| lemma_tdiv(a.v(), b.v());
+    //@| id_dist(tdiv(a.v(), b.v()), 1, b.v());
+
+impl Ratio {
+    /// Ord::cmp — the order of Q:  sign(n1 d2 - n2 d1), consistent with equality
+    pub fn cmp(&self, other: &Ratio) -> (r: core::cmp::Ordering)
+        requires self.denom.v() > 0, other.denom.v() > 0,
+        ensures
+            r == core::cmp::Ordering::Less <==> self.numer.v() * other.denom.v() < other.numer.v() * self.denom.v(),
+            r == core::cmp::Ordering::Equal <==> self.numer.v() * other.denom.v() == other.numer.v() * self.denom.v(),
+            r == core::cmp::Ordering::Greater <==> self.numer.v() * other.denom.v() > other.numer.v() * self.denom.v(),
+        decreases self.denom.v() + other.denom.v()
+    //@body impl/Ord@Ratio/cmp ring=1 subst=T:Z
+    //@+ sig
+    //@| fn cmp(&self, other: &Self) -> cmp::Ordering
+    //@+ pre
+    //@| let (n1, d1, n2, d2) = (self.numer.v(), self.denom.v(), other.numer.v(), other.denom.v());
+    //@| if d1 == d2 { lemma_cmp_same_denom(n1, n2, d1); }
+    //@+ after-let q2
+    //@| let (n1, d1, n2, d2) = (self.numer.v(), self.denom.v(), other.numer.v(), other.denom.v());
+    //@| lemma_cmp_floor(n1, d1, n2, d2, q1.v(), r1.v(), q2.v(), r2.v());
+}
+
+/// same positive denominator: compare numerators
+pub proof fn lemma_cmp_same_denom(n1: int, n2: int, d: int)
+    requires d > 0
+    ensures (n1 < n2) == (n1 * d < n2 * d), (n1 == n2) == (n1 * d == n2 * d), (n1 > n2) == (n1 * d > n2 * d)
+{
+    assert((n1 < n2) ==> (n1 * d < n2 * d)) by (nonlinear_arith) requires d > 0;
+    assert((n1 > n2) ==> (n1 * d > n2 * d)) by (nonlinear_arith) requires d > 0;
+}
+/// n_i = q_i d_i + r_i with 0 <= r_i < d_i:  the order of n1/d1 and n2/d2 is the order of (q1, r1/d1) and (q2, r2/d2)
+pub proof fn lemma_cmp_floor(n1: int, d1: int, n2: int, d2: int, q1: int, r1: int, q2: int, r2: int)
+    requires d1 > 0, d2 > 0, n1 == q1 * d1 + r1, 0 <= r1 < d1, n2 == q2 * d2 + r2, 0 <= r2 < d2
+    ensures
+        q1 < q2 ==> n1 * d2 < n2 * d1,
+        q1 > q2 ==> n1 * d2 > n2 * d1,
+        q1 == q2 ==> n1 * d2 - n2 * d1 == r1 * d2 - r2 * d1,
+        // the recursive call compares d2/r2 with d1/r1
+        d2 * r1 == r1 * d2, d1 * r2 == r2 * d1,
+        r1 == 0 ==> r1 * d2 == 0, r2 == 0 ==> r2 * d1 == 0,
+        r1 > 0 ==> r1 * d2 > 0, r2 > 0 ==> r2 * d1 > 0,
+{
+    let dd = d1 * d2;
+    id_dist(q1 * d1, r1, d2); id_dist(q2 * d2, r2, d1);
+    id_assoc3(q1, d1, d2); id_assoc3(q2, d2, d1);
+    assert(d2 * d1 == dd) by (nonlinear_arith) requires dd == d1 * d2;
+    assert(n1 * d2 == q1 * dd + r1 * d2); assert(n2 * d1 == q2 * dd + r2 * d1);
+    assert(0 <= r1 * d2 < dd) by (nonlinear_arith) requires 0 <= r1 < d1, d2 > 0, dd == d1 * d2;
+    assert(0 <= r2 * d1 < dd) by (nonlinear_arith) requires 0 <= r2 < d2, d1 > 0, dd == d1 * d2;
+    assert(dd > 0) by (nonlinear_arith) requires d1 > 0, d2 > 0, dd == d1 * d2;
+    if q1 < q2 { assert((q1 + 1) * dd <= q2 * dd) by (nonlinear_arith) requires q1 + 1 <= q2, dd > 0; id_dist(q1, 1, dd); }
+    if q1 > q2 { assert((q2 + 1) * dd <= q1 * dd) by (nonlinear_arith) requires q2 + 1 <= q1, dd > 0; id_dist(q2, 1, dd); }
+    assert(d2 * r1 == r1 * d2 && d1 * r2 == r2 * d1) by (nonlinear_arith);
+    assert(r1 == 0 ==> r1 * d2 == 0) by (nonlinear_arith);
+    assert(r2 == 0 ==> r2 * d1 == 0) by (nonlinear_arith);
+    assert(r1 > 0 ==> r1 * d2 > 0) by (nonlinear_arith) requires d2 > 0;
+    assert(r2 > 0 ==> r2 * d1 > 0) by (nonlinear_arith) requires d1 > 0;
+}
+
 
 } // verus!
 fn main() {}
